@@ -1,3 +1,3 @@
 #!/bin/sh
 # replays this counterexample against the real build
-cd /tmp/seedrepo_C01 && VERIF_SCRIPT=/verif/replays/C01/VHarnessSwapC01_280e099c_0/script.json VERIF_RAW_SALT=0 GOFLAGS=-mod=mod GOPROXY=off go test -vet=off -count=1 -overlay /verif/replays/C01/VHarnessSwapC01_280e099c_0/overlay.json -run ^TestVerifReplay_VHarnessSwapC01$ -v ./mint
+cd /tmp/seedrepo_C02f && VERIF_SCRIPT=/verif/replays/C01/VHarnessSwapC01_280e099c_0/script.json VERIF_RAW_SALT=0 GOFLAGS=-mod=mod GOPROXY=off go test -vet=off -count=1 -overlay /verif/replays/C01/VHarnessSwapC01_280e099c_0/overlay.json -run ^TestVerifReplay_VHarnessSwapC01$ -v ./mint
